@@ -226,7 +226,15 @@ def install(interp):
         a, x = _t(a).float(), _t(x).float()
         return a._binop(x, lambda p, q: f_gammaincc(p, q), "arith")
 
+    def sp_log_ndtr(x):
+        """log of the standard normal cdf: log(1/2 (1 + erf(x / sqrt 2))) (sqrt 2 as its IEEE double, like math.sqrt(2))"""
+        import math as _m
+
+        x = _t(x).float()
+        return ((x / _m.sqrt(2)).erf() * 0.5 + 0.5).log()
+
     table["special"] = Namespace("torch.special", dict(
+        log_ndtr=sp_log_ndtr, ndtr=lambda x: (_t(x).float() / __import__("math").sqrt(2)).erf() * 0.5 + 0.5,
         xlogy=sp_xlogy, gammaincc=sp_gammaincc, erf=lambda x: _t(x).erf(), expm1=lambda x: _t(x).exp() - 1,
         log1p=lambda x: (_t(x) + 1).log(), gammaln=lambda x: _t(x).lgamma(),
     ))
